@@ -387,8 +387,8 @@ def call_out(t, v):
         return ("ok", f(v))
     except GraphQLError:
         return ("err", True)
-    except Exception:  # noqa: BLE001
-        return ("err", False)
+    except Exception as e:  # noqa: BLE001
+        return ("err", False, type(e).__name__)
 
 
 def call_in(t, v):
@@ -398,8 +398,8 @@ def call_in(t, v):
         return ("ok", f(v))
     except GraphQLError:
         return ("err", True)
-    except Exception:  # noqa: BLE001
-        return ("err", False)
+    except Exception as e:  # noqa: BLE001
+        return ("err", False, type(e).__name__)
 
 
 def domain_ok(name, r):
@@ -495,7 +495,7 @@ class Runner:
                 continue
             if got[0] == "err":
                 if not got[1]:
-                    ck.count("error_not_graphql_error")
+                    ck.count("error_not_graphql_error:" + got[2])
                 if want != [1]:
                     ck.violation(rk, f"{name} ({how}) rejects {short(spec)}; the model yields {want}",
                                  dict(replay, relation="impl = model (correspondence)", impl="error", model=want))
@@ -556,7 +556,7 @@ class Runner:
             ck.count(f"input:{name}:{'ok' if want[0] == 0 else 'error'}")
             if got[0] == "err":
                 if not got[1]:
-                    ck.count("error_not_graphql_error")
+                    ck.count("error_not_graphql_error:" + got[2])
                 got_w = [1]
             else:
                 enc = enc_result(got[1], name == "Float")
@@ -614,7 +614,7 @@ class Runner:
             ck.count(f"enum:{how}:{'ok' if out[0] == 0 else 'error'}")
             if got[0] == "err":
                 if not got[1]:
-                    ck.count("error_not_graphql_error")
+                    ck.count("error_not_graphql_error:" + got[2])
                 got_w = [1]
             else:
                 r = got[1]
